@@ -658,6 +658,54 @@ def foreign_worker(_job):
                 acc.count('compressed-point-not-supported')
                 continue
             acc.violation('keys:cannot-read-openssl:%s:%s' % (alg, fn.split('@')[0]), repr(exc)[:200], {'kind': 'foreign', 'alg': alg, 'label': fn})
+    # public keys in the shapes openssl writes (SubjectPublicKeyInfo PEM/DER; EC points compressed and hybrid)
+    pubcases = []
+    for curve, alg in (('prime256v1', 'ecdsa-sha2-nistp256'), ('secp384r1', 'ecdsa-sha2-nistp384'), ('secp521r1', 'ecdsa-sha2-nistp521')):
+        k = P.key('c15-' + alg, alg)
+        with open(os.path.join(tmp, 'k.pem'), 'wb') as f:
+            f.write(k.export_private_key('pkcs8-pem'))
+        for form in ('uncompressed', 'compressed', 'hybrid'):
+            for outform in ('PEM', 'DER'):
+                fn = 'pub-%s.%s@%s' % (form, outform.lower(), alg)
+                sh('ec', '-in', 'k.pem', '-pubout', '-conv_form', form, '-outform', outform, '-out', fn)
+                pubcases.append((alg, k, fn))
+    for alg, kw in (('ssh-rsa', {'key_size': 2048}), ('ssh-ed25519', {}), ('ssh-dss', {})):
+        k = P.key('c15-' + alg, alg, **kw)
+        with open(os.path.join(tmp, 'k.pem'), 'wb') as f:
+            f.write(k.export_private_key('pkcs8-pem'))
+        for outform in ('PEM', 'DER'):
+            fn = 'pub.%s@%s' % (outform.lower(), alg)
+            sh('pkey', '-in', 'k.pem', '-pubout', '-outform', outform, '-out', fn)
+            pubcases.append((alg, k, fn))
+    for alg, k, fn in pubcases:
+        pth = os.path.join(tmp, fn)
+        if not os.path.exists(pth):
+            acc.count('openssl-could-not-write:' + fn)
+            continue
+        acc.add(core.digest(('foreign-pub', alg, fn)), transitions=1)
+        try:
+            got = asyncssh.read_public_key(pth)
+            bad = []
+            if got.public_data != k.public_data:
+                bad.append('public blob of %d bytes, the key has %d' % (len(got.public_data), len(k.public_data)))
+            if got.export_public_key('openssh') != k.convert_to_public().export_public_key('openssh'):
+                bad.append('OpenSSH export differs')
+            if got.get_fingerprint() != k.get_fingerprint():
+                bad.append('fingerprint differs')
+            if SSH_KEYGEN and not bad:
+                op = os.path.join(tmp, 'exp.pub')
+                got.write_public_key(op, 'openssh')
+                r = subprocess.run([SSH_KEYGEN, '-l', '-f', op], capture_output=True, text=True)
+                if r.returncode != 0:
+                    bad.append('ssh-keygen -l refuses the OpenSSH export: %s' % r.stderr.strip()[:80])
+            for b_ in bad:
+                acc.violation('keys:reads-openssl-differently:%s:%s' % (alg, fn.split('@')[0]), 'asyncssh reads %s as a key with %s' % (fn, b_),
+                              {'kind': 'foreign', 'alg': alg, 'label': fn})
+        except Exception as exc:            # pylint: disable=broad-except
+            if 'compressed' in fn or 'hybrid' in fn:
+                acc.count('compressed-point-not-supported')
+                continue
+            acc.violation('keys:cannot-read-openssl:%s:%s' % (alg, fn.split('@')[0]), repr(exc)[:200], {'kind': 'foreign', 'alg': alg, 'label': fn})
     shutil.rmtree(tmp, ignore_errors=True)
     return acc
 
